@@ -136,6 +136,21 @@ def find_scans(f, L, body, paths):
                     eff.append((nm, ("assigned", strip_idx(L.lift(v)))))
         eff = sorted(set(eff), key=repr)          # a temporary holding the same update is not a second effect
         sc.arms.setdefault(cls, []).append(eff)
+    # a scan must run to exhaustion: no path may leave the function (or fall out of the loop) from inside an iteration
+    for p in paths:
+        if p.end not in ("return",):
+            continue
+        last = {}
+        for c in p.conds:
+            e = c[0]
+            if e[0] == "discr" and e[1][0] == "next" and isinstance(c[1], int):
+                last[c[2]] = c[1]
+        for hdr, v in last.items():
+            sc = scans.get(hdr)
+            if sc is not None and v == 1:
+                msg = "the scan can stop before every aligned slider has been examined (a path leaves the loop from inside an iteration)"
+                if msg not in sc.errors:
+                    sc.errors.append(msg)
     return list(scans.values())
 
 
